@@ -103,7 +103,7 @@ def run_virtual(case):
 # titles whose shape invites special treatment by naming code; the oracle for these cases ignores the file names
 TITLE_SETS = {"dup": ["SAME"], "lr": ["PAD L", "PAD R", "PAD-L", "PAD-R"], "lr_only": ["L", "R", "-L", "-R"],
               "dots": ["TRK.1", "TRK.2", "TRK.", ".TRK"], "unsafe": ["a/b", "a:b", "..", "a\\b"], "case": ["Trk", "TRK", "trk", "TrK"],
-              "numbered": ["T", "T (2)", "T (2)", "T"]}
+              "numbered": ["T", "T (2)", "T (2)", "T"], "wavext": ["Intro", "Intro.wav", "INTRO.WAV", "Intro.wav.wav"]}
 
 
 def run_files(case):
@@ -174,8 +174,8 @@ class Check(CheckBase):
             "thorough) x per-track {one INDEX | INDEX 00+01} x {TITLE | none} under deviation bound 1 x bin length = last "
             "index*2352 + r for r in {0,1,2,3,4,5,2351,2352,2353,4704}, on a virtual position-coded bin through "
             "parse_cue_sheet/from_bin_cue/WAV builder; minute-carry positions 4499/4500/4501; (iii) a subset through real "
-            ".cue/.bin files and the full ls/export run, incl. 7 title families whose shape invites special treatment by naming "
-            "code (equal, L/R-pair shaped, bare L/R, dotted, unsafe characters, case-only differences, '(2)'-numbered) judged "
+            ".cue/.bin files and the full ls/export run, incl. 8 title families whose shape invites special treatment by naming "
+            "code (equal, L/R-pair shaped, bare L/R, dotted, unsafe characters, case-only differences, '(2)'-numbered, with and without a '.wav' ending) judged "
             "by content only: one file per track, together exactly the track windows. non-trivial = >=2 tracks, or an MSF carry, or a ragged bin tail")
     assumptions = ["bin content is frame-position coded (LE32(k*2654435761)), so any foreign window is visible"]
 
